@@ -64,6 +64,7 @@ PINNED = {
             "LazyStackedTensorDict.append", "LazyStackedTensorDict._compute_batch_size", "LazyStackedTensorDict._set_str",
             "LazyStackedTensorDict._set_tuple", "LazyStackedTensorDict.del_", "LazyStackedTensorDict.rename_key_",
             "LazyStackedTensorDict._rename_subtds", "LazyStackedTensorDict._has_names", "LazyStackedTensorDict._erase_names",
+            "_dim_names_snapshot",
         ],
     },
 }
